@@ -13,7 +13,7 @@ from harness.common import Ctx
 SPARK_OK = ["lev_sur", "dist_fn", "exact_city_tf", "exact_dob", "lev_dob", "amount", "km", "city_custom"]
 # comparisons only DuckDB and Spark accept (arrays, date parsing, regex); DateOfBirthComparison (damerau_levenshtein) and
 # EmailComparison (jaro_winkler) need the Scala UDF jar that the installed Spark 4 lacks: recorded, not run
-FORCED = [["arr_intersect", "date_diff", "lev_sur"], ["postcode", "exact_city_tf", "amount"], None]
+FORCED = [["arr_intersect", "date_diff", "lev_sur"], ["postcode", "exact_city_tf", "arr_intersect"], None]
 NEEDS_UDF_JAR = ["dob_cmp", "email"]
 
 
@@ -49,8 +49,10 @@ def run(ctx: Ctx):
         case["tables"] = [t[:14] for t in case["tables"]]      # local[2] with a 6g heap: keep the clustering loop small
         for c in case["spec"]["comparisons"]:
             ctx.hist("spark_comparison_in_pipeline", c)
+        shared = c06_x.shared_settings(case)
+        ctx.hist("spark_pipeline_creators_reused_from_duckdb", str(shared is not None))
         try:
-            ref = c06_x.run_backend(case, "duckdb")
+            ref = c06_x.run_backend(case, "duckdb", settings=shared)
         except Exception as e:
             ctx.hist("pipeline_reference_error", type(e).__name__)
             continue
@@ -59,7 +61,7 @@ def run(ctx: Ctx):
                 spark.catalog.dropTempView(t.name)
         api = SparkAPI(spark_session=spark, break_lineage_method="persist", num_partitions_on_repartition=2)
         try:
-            oth = c06_x.run_backend(case, "spark", api=api)
+            oth = c06_x.run_backend(case, "spark", api=api, settings=shared)
         except Exception as e:
             if "OutOfMemoryError" in str(e) or isinstance(e, ConnectionRefusedError) or "Connection refused" in str(e):
                 # sandbox resource limit of the local JVM, not a linkage difference
